@@ -1,4 +1,4 @@
-import AlgoVerif.Model.C02Run
+import AlgoVerif.Model.C02Pool
 import AlgoVerif.Model.C02Hash
 /-!
 Line-protocol component for C02 (also used by C03).  Values are `Int`; keys are `Int`, or byte strings
@@ -12,9 +12,29 @@ maxlf=<a>/<b> shuffle=<seed>` (`cap=0` / missing load factors select the default
 Component `comp=hashfn fam=<F>`: a call history of `hash.HashFuncFor<F>(nil)` closures (two instances, the
 op prefix `b.` selects the second): `h <arg>` prints the hash the Model's pure function assigns to `<arg>`.
 
-Ops (`b.` prefix = second table): `put k v`, `get k`, `delete k`, `deleteall`, `size`, `isempty`,
-`all`, `equal`, `dump`, `probes k`.  Mutating ops print the result followed by ` | ` and a summary
-of the internal state (`m n u p` and a 64-bit digest of every occupied slot).
+A case runs on a **pool** of tables (`Model/C02Pool.lean`).  Tables 0 and 1 are built with the case-wide keys above;
+`t<i>=comp,hash,cap,minlf,maxlf,eqval` (i < 8, an empty field = the case-wide value) gives table `i` its own
+implementation, hash function, options and value equality (`eq`, `mod8`, or the asymmetric `le`), so that tables which differ in their
+parameters meet in `equal`.  Further hash functions for `Int` keys: `zero one top max` (constants 0, 1, 2^63,
+2^64-1), `mulm` (k times the initial capacity), `neg` (2^64-1-k), `hi` (k shifted left by 32), `pow` (2^(k mod 64)).
+
+Ops (`<i>.` prefix = table i, `b.` = table 1, none = table 0): `put k v`, `get k`, `delete k`, `deleteall`, `size`,
+`isempty`, `all`, `dump`, `probes k`; `equal` (= `equal 0 1`), `equal i j` = `tables[i].Equal(tables[j])`.
+Mutating ops print the result followed by ` | ` and a summary of the internal state (`m n u p` and a 64-bit digest
+of every occupied slot).
+
+Iterator values: `seq` (`tables[i].All()`, prints `seq=<id>`), `pull <seq>` (`iter.Pull2`, prints `pull=<id>`),
+`next <pull>` (prints the pair, `done`, or `invalid` once the table has been changed), `stop <pull>`;
+`range <seq> <limit>` = a `for range` over the sequence that breaks after `limit` pairs (-1: runs to the end), pairs in
+the order yielded; `nested i j <limit>` = `for range tables[i].All() { for range tables[j].All() { … } }` with the
+inner loop broken after `limit` pairs: the outer pairs in order, the number of inner pairs and a digest of their
+sequence.  Both are loops over `pull`/`next`/`stop`/`seq` steps of the Model.
+
+Bulk ops (one output line; loops over `put`/`delete`/`get` steps of the Model, so that large tables do not pay for a
+state digest per operation): `putn a n st v` = `Put(a+c*st, v+c)` for c < n, prints `caps=` the capacity after every
+resize, then the state summary; `deln a n st` (prints `hit=` the number of keys found, `caps=`, summary); `getn a n st`
+(`hit=`, `sum=` of the values found); `probesn a n st` (maximum and sum of the probe counts of the keys).  With
+`keys=str` the key of a bulk op is the decimal numeral.
 
 The shuffle is the replica of Go's `math/rand.(*Rand).Shuffle` driven by the splitmix64 source that
 the hook `symboltable.VerifSetShuffleSeed` installs (seed 0: identity).
@@ -38,6 +58,14 @@ def hashOf (name : String) (cap0 : Nat) : Int → UInt64 :=
   | "const" => fun _ => 5
   | "mod3" => fun k => emod k 3
   | "modm" => fun k => emod k cap0
+  | "zero" => fun _ => 0
+  | "one" => fun _ => 1
+  | "top" => fun _ => 9223372036854775808
+  | "max" => fun _ => 18446744073709551615
+  | "mulm" => fun k => toU64 (k * cap0)
+  | "neg" => fun k => 18446744073709551615 - toU64 k
+  | "hi" => fun k => toU64 k <<< 32
+  | "pow" => fun k => (1 : UInt64) <<< UInt64.ofNat (k % 64).toNat
   | _ => fnv1
 
 /-! ### replica of `rand.Shuffle` over the hook's source -/
@@ -110,8 +138,11 @@ structure KeyIO (K : Type) where
   render : K → String
   dig : K → UInt64
   showPairs : List (K × Int) → String
+  /-- the key a bulk op uses for the number `n` -/
+  ofInt : Int → Option K
 
 def intKeys : KeyIO Int where
+  ofInt := some
   parse := parseInt?
   render := toString
   dig := toU64
@@ -150,6 +181,7 @@ def showPairsB (l : List (Hash.Bytes × Int)) : String :=
   "[" ++ " ".intercalate (sorted.map fun e => s!"({e.1},{e.2})") ++ "]"
 
 def strKeys : KeyIO Hash.Bytes where
+  ofInt := fun n => some ((toString n).toList.map fun c => UInt8.ofNat c.toNat)
   parse := parseBytes
   render := renderBytes
   dig := bytesDig
@@ -258,45 +290,328 @@ def showOpt : Option Int → String
   | some v => s!"some {v}"
   | none => "none"
 
-/-! ### the op loop -/
+/-! ### the op loop (a pool of tables) -/
 
 section
 variable {K : Type} [DecidableEq K]
 
-def parseOp (io : KeyIO K) (ws : List String) : Option (Op K Int ⊕ (Bool × String × Option K)) :=
-  -- `inl`: an operation of the Model; `inr (b, "dump"|"probes", arg)`: an observation of the driver
-  let (b, ws) : Bool × List String :=
-    match ws with
-    | w :: rest => if w.startsWith "b." then (true, (w.drop 2).toString :: rest) else (false, ws)
-    | [] => (false, [])
-  match ws with
-  | ["put", k, v] => match io.parse k, parseInt? v with
-    | some k, some v => some (.inl (.put b k v))
-    | _, _ => none
-  | ["get", k] => (io.parse k).map fun k => .inl (.get b k)
-  | ["delete", k] => (io.parse k).map fun k => .inl (.delete b k)
-  | ["deleteall"] => some (.inl (.deleteAll b))
-  | ["size"] => some (.inl (.size b))
-  | ["isempty"] => some (.inl (.isEmpty b))
-  | ["all"] => some (.inl (.all b))
-  | ["equal"] => some (.inl .equal)
-  | ["dump"] => some (.inr (b, "dump", none))
-  | ["probes", k] => (io.parse k).map fun k => .inr (b, "probes", some k)
-  | _ => none
+def describeTab (io : KeyIO K) (hash : K → UInt64) : Describe K (Tab K Int) where
+  summary t := match t with
+    | .chain t => (chainDescribe io hash).summary t
+    | .lin t => (linDescribe io hash).summary t
+    | .oa t => (oaDescribe io hash).summary t
+  dump t := match t with
+    | .chain t => (chainDescribe io hash).dump t
+    | .lin t => (linDescribe io hash).dump t
+    | .oa t => (oaDescribe io hash).dump t
+  probes t k := match t with
+    | .chain t => (chainDescribe io hash).probes t k
+    | .lin t => (linDescribe io hash).probes t k
+    | .oa t => (oaDescribe io hash).probes t k
 
-def renderOut {T : Type} (io : KeyIO K) (D : Describe K T) (s : State T Rng) (op : Op K Int) (o : Out K Int) : String :=
+def tabM : Tab K Int → Nat
+  | .chain t => t.m
+  | .lin t => t.m
+  | .oa t => t.m
+
+/-- probe counts of `Get` and of the search loop of `Put`/`Delete` (`none`: more than `4m+4`) -/
+def tabProbes (hash : K → UInt64) (t : Tab K Int) (k : K) : Option Nat × Option Nat :=
+  match t with
+  | .chain t =>
+    let c := Chain.nodesVisited k (t.buckets[Chain.hashIdx t.m (mix (hash k))]?.getD [])
+    (some c, some c)
+  | .lin t =>
+    let c := Lin.probes t (mix (hash k)) k (4 * t.m + 4) 0
+    (c, c)
+  | .oa t => (OA.probesGet t (mix (hash k)) k (4 * t.m + 4) 0, OA.probesFind t (mix (hash k)) k (4 * t.m + 4) 0)
+
+/-- `<n>.op` selects table `n` (`b.` = table 1, no prefix = table 0) -/
+def splitPrefix (w : String) : Nat × String :=
+  if w.startsWith "b." then (1, (w.drop 2).toString)
+  else match w.splitOn "." with
+    | [a, b] => match a.toNat? with
+      | some n => (n, b)
+      | none => (0, w)
+    | _ => (0, w)
+
+/-- what one op line asks for: an operation of the Model, an observation, or a loop over operations of the Model -/
+inductive DOp (K : Type) where
+  | prim (op : POp K Int)
+  | dump (i : Nat)
+  | probes (i : Nat) (k : K)
+  | range (s : Nat) (limit : Int)
+  | nested (i j : Nat) (limit : Int)
+  | putn (i : Nat) (a n st v : Int)
+  | deln (i : Nat) (a n st : Int)
+  | getn (i : Nat) (a n st : Int)
+  | probesn (i : Nat) (a n st : Int)
+
+def parseOp (io : KeyIO K) (ws : List String) : Option (DOp K) :=
+  match ws with
+  | [] => none
+  | w :: rest =>
+    let (i, w) := splitPrefix w
+    match w :: rest with
+    | ["put", k, v] => match io.parse k, parseInt? v with
+      | some k, some v => some (.prim (.put i k v))
+      | _, _ => none
+    | ["get", k] => (io.parse k).map fun k => .prim (.get i k)
+    | ["delete", k] => (io.parse k).map fun k => .prim (.delete i k)
+    | ["deleteall"] => some (.prim (.deleteAll i))
+    | ["size"] => some (.prim (.size i))
+    | ["isempty"] => some (.prim (.isEmpty i))
+    | ["all"] => some (.prim (.all i))
+    | ["equal"] => some (.prim (.equal 0 1))
+    | ["equal", a, b] => match a.toNat?, b.toNat? with
+      | some a, some b => some (.prim (.equal a b))
+      | _, _ => none
+    | ["seq"] => some (.prim (.seq i))
+    | ["pull", s] => s.toNat?.map fun s => .prim (.pull s)
+    | ["next", p] => p.toNat?.map fun p => .prim (.next p)
+    | ["stop", p] => p.toNat?.map fun p => .prim (.stop p)
+    | ["range", s, l] => match s.toNat?, l.toInt? with
+      | some s, some l => some (.range s l)
+      | _, _ => none
+    | ["nested", a, b, l] => match a.toNat?, b.toNat?, l.toInt? with
+      | some a, some b, some l => some (.nested a b l)
+      | _, _, _ => none
+    | ["dump"] => some (.dump i)
+    | ["probes", k] => (io.parse k).map fun k => .probes i k
+    | ["putn", a, n, st, v] => match a.toInt?, n.toInt?, st.toInt?, v.toInt? with
+      | some a, some n, some st, some v => some (.putn i a n st v)
+      | _, _, _, _ => none
+    | ["deln", a, n, st] => match a.toInt?, n.toInt?, st.toInt? with
+      | some a, some n, some st => some (.deln i a n st)
+      | _, _, _ => none
+    | ["getn", a, n, st] => match a.toInt?, n.toInt?, st.toInt? with
+      | some a, some n, some st => some (.getn i a n st)
+      | _, _, _ => none
+    | ["probesn", a, n, st] => match a.toInt?, n.toInt?, st.toInt? with
+      | some a, some n, some st => some (.probesn i a n st)
+      | _, _, _ => none
+    | _ => none
+
+def summaryOf (io : KeyIO K) (s : PState K Int Rng) (i : Nat) : String :=
+  match s.objs[i]? with
+  | some o => (describeTab io o.hash).summary o.tab
+  | none => "-"
+
+def mOf (s : PState K Int Rng) (i : Nat) : Nat :=
+  match s.objs[i]? with
+  | some o => tabM o.tab
+  | none => 0
+
+def showPair (io : KeyIO K) (e : K × Int) : String := s!"({io.render e.1},{e.2})"
+
+def renderPrim (io : KeyIO K) (s : PState K Int Rng) (op : POp K Int) (o : POut K Int) : String :=
   match op, o with
-  | .put b _ _, _ => s!"ok | {D.summary (s.sel b)}"
-  | .delete b _, .val r => s!"ok {showOpt r} | {D.summary (s.sel b)}"
-  | .deleteAll b, _ => s!"ok | {D.summary (s.sel b)}"
+  | _, .invalid => "ok invalid"
+  | .put i _ _, _ => s!"ok | {summaryOf io s i}"
+  | .delete i _, .val r => s!"ok {showOpt r} | {summaryOf io s i}"
+  | .deleteAll i, _ => s!"ok | {summaryOf io s i}"
+  | .seq _, .id n => s!"ok seq={n}"
+  | .pull _, .id n => s!"ok pull={n}"
   | _, .unit => "ok"
   | _, .val r => s!"ok {showOpt r}"
   | _, .bool r => s!"ok {showBool r}"
   | _, .int r => s!"ok {r}"
   | _, .list l => s!"ok {io.showPairs l}"
+  | _, .id n => s!"ok {n}"
+  | _, .pair e => s!"ok {showPair io e}"
+  | _, .done => "ok done"
 
-def runWith {T : Type} (io : KeyIO K) (I : Impl K Int Rng T) (D : Describe K T) (init : Outcome (State T Rng))
-    (ops : List String) : List String := Id.run do
+def showCaps (caps : Array Nat) : String := ",".intercalate (caps.toList.map toString)
+
+/-- result of a loop over Model operations: the state, and the line (or the failure that ended the case) -/
+inductive LoopRes (K : Type) where
+  | ok (s : PState K Int Rng) (line : String)
+  | fail (line : String)
+
+/-- the state of a failed case (never looked at: the rest of the case prints `skip`).  Every branch of the loops
+below assigns the state variable — the new state, or this one — so that the compiled code never holds a second
+reference to the tables across a call of `Pool.step`, and the slot arrays are updated in place. -/
+def gone : PState K Int Rng := ⟨[], Rng.ofSeed 0, {}⟩
+
+def failLine {α : Type} : Outcome α → String
+  | .diverge => "hang"
+  | _ => "panic"
+
+/-- `for k, v := range seqs[sid] { …; if count == limit { break } }` -/
+def runRange (io : KeyIO K) (s0 : PState K Int Rng) (sid : Nat) (limit : Int) : LoopRes K := Id.run do
+  match Pool.step shuffle s0 (.pull sid) with
+  | .ok (s1, .id p) =>
+    let mut s := s1
+    let mut got : Array String := #[]
+    let mut fail : Option String := none
+    for _ in [0:100000000] do
+      if limit ≥ 0 && (got.size : Int) ≥ limit then break
+      match Pool.step shuffle s (.next p) with
+      | .ok (s', .pair e) => s := s'; got := got.push (showPair io e)
+      | .ok (s', _) => s := s'; break
+      | r => s := gone; fail := some (failLine r); break
+    match fail with
+    | some l => return .fail l
+    | none =>
+      match Pool.step shuffle s (.stop p) with
+      | .ok (s', _) => return .ok s' ("ok [" ++ " ".intercalate got.toList ++ "]")
+      | r => return .fail (failLine r)
+  | .ok (s1, _) => return .ok s1 "ok invalid"
+  | r => return .fail (failLine r)
+
+/-- the inner loop of `nested`: one traversal of table `j`, broken after `limit` pairs -/
+def runInner (io : KeyIO K) (s0 : PState K Int Rng) (j : Nat) (limit : Int) (inner0 : Nat) (d0 : UInt64) :
+    PState K Int Rng × Nat × UInt64 × Option String := Id.run do
+  match Pool.step shuffle s0 (.seq j) with
+  | .ok (sb, .id sid2) =>
+    match Pool.step shuffle sb (.pull sid2) with
+    | .ok (sc, .id p2) =>
+      let mut s := sc
+      let mut inner := inner0
+      let mut d := d0
+      let mut cnt : Int := 0
+      let mut fail : Option String := none
+      for _ in [0:100000000] do
+        match Pool.step shuffle s (.next p2) with
+        | .ok (sd, .pair e2) =>
+          s := sd
+          inner := inner + 1
+          cnt := cnt + 1
+          d := fnvStep (fnvStep d (io.dig e2.1)) (toU64 e2.2)
+          if limit ≥ 0 && cnt ≥ limit then break
+        | .ok (sd, _) => s := sd; break
+        | r => s := gone; fail := some (failLine r); break
+      match fail with
+      | some l => return (s, inner, d, some l)
+      | none =>
+        match Pool.step shuffle s (.stop p2) with
+        | .ok (se, _) => return (se, inner, d, none)
+        | r => return (gone, inner, d, some (failLine r))
+    | .ok (sc, _) => return (sc, inner0, d0, none)
+    | r => return (gone, inner0, d0, some (failLine r))
+  | .ok (sb, _) => return (sb, inner0, d0, none)
+  | r => return (gone, inner0, d0, some (failLine r))
+
+/-- `for k, v := range tables[i].All() { for k2, v2 := range tables[j].All() { …; if count == limit { break } } }` -/
+def runNested (io : KeyIO K) (s0 : PState K Int Rng) (i j : Nat) (limit : Int) : LoopRes K := Id.run do
+  if (s0.objs[i]?).isNone || (s0.objs[j]?).isNone then return .ok s0 "ok invalid"
+  match Pool.step shuffle s0 (.seq i) with
+  | .ok (s1, .id sid) =>
+    match Pool.step shuffle s1 (.pull sid) with
+    | .ok (s2, .id p) =>
+      let mut s := s2
+      let mut outer : Array String := #[]
+      let mut inner : Nat := 0
+      let mut d : UInt64 := 14695981039346656037
+      let mut fail : Option String := none
+      for _ in [0:100000000] do
+        match Pool.step shuffle s (.next p) with
+        | .ok (sa, .pair e) =>
+          outer := outer.push (showPair io e)
+          let (sb, inner', d', f) := runInner io sa j limit inner d
+          s := sb
+          inner := inner'
+          d := d'
+          if f.isSome then fail := f; break
+        | .ok (sa, _) => s := sa; break
+        | r => s := gone; fail := some (failLine r); break
+      match fail with
+      | some l => return .fail l
+      | none => return .ok s (s!"ok outer=[" ++ " ".intercalate outer.toList ++ s!"] inner={inner} h={hex16 d}")
+    | .ok (s2, _) => return .ok s2 "ok invalid"
+    | r => return .fail (failLine r)
+  | .ok (s1, _) => return .ok s1 "ok invalid"
+  | r => return .fail (failLine r)
+
+/-- `for c := 0; c < n; c++ { tables[i].Put(a + c*st, v + c) }`, recording the capacity after every resize -/
+def runPutN (io : KeyIO K) (s0 : PState K Int Rng) (i : Nat) (a n st v : Int) : LoopRes K := Id.run do
+  if (s0.objs[i]?).isNone then return .ok s0 "ok invalid"
+  let mut s := s0
+  let mut caps : Array Nat := #[]
+  let mut m := mOf s i
+  let mut fail : Option String := none
+  for c in [0:n.toNat] do
+    match io.ofInt (a + c * st) with
+    | none => fail := some "bad-op"; break
+    | some k =>
+      match Pool.step shuffle s (.put i k (v + c)) with
+      | .ok (s', _) =>
+        s := s'
+        let m' := mOf s i
+        if m' != m then caps := caps.push m'; m := m'
+      | r => s := gone; fail := some (failLine r); break
+  match fail with
+  | some l => return .fail l
+  | none => return .ok s s!"ok caps={showCaps caps} | {summaryOf io s i}"
+
+def runDelN (io : KeyIO K) (s0 : PState K Int Rng) (i : Nat) (a n st : Int) : LoopRes K := Id.run do
+  if (s0.objs[i]?).isNone then return .ok s0 "ok invalid"
+  let mut s := s0
+  let mut caps : Array Nat := #[]
+  let mut m := mOf s i
+  let mut hit : Nat := 0
+  let mut fail : Option String := none
+  for c in [0:n.toNat] do
+    match io.ofInt (a + c * st) with
+    | none => fail := some "bad-op"; break
+    | some k =>
+      match Pool.step shuffle s (.delete i k) with
+      | .ok (s', o) =>
+        s := s'
+        match o with
+        | .val (some _) => hit := hit + 1
+        | _ => pure ()
+        let m' := mOf s i
+        if m' != m then caps := caps.push m'; m := m'
+      | r => s := gone; fail := some (failLine r); break
+  match fail with
+  | some l => return .fail l
+  | none => return .ok s s!"ok hit={hit} caps={showCaps caps} | {summaryOf io s i}"
+
+def runGetN (io : KeyIO K) (s0 : PState K Int Rng) (i : Nat) (a n st : Int) : LoopRes K := Id.run do
+  if (s0.objs[i]?).isNone then return .ok s0 "ok invalid"
+  let mut s := s0
+  let mut hit : Nat := 0
+  let mut sum : Int := 0
+  let mut fail : Option String := none
+  for c in [0:n.toNat] do
+    match io.ofInt (a + c * st) with
+    | none => fail := some "bad-op"; break
+    | some k =>
+      match Pool.step shuffle s (.get i k) with
+      | .ok (s', o) =>
+        s := s'
+        match o with
+        | .val (some x) => hit := hit + 1; sum := sum + x
+        | _ => pure ()
+      | r => s := gone; fail := some (failLine r); break
+  match fail with
+  | some l => return .fail l
+  | none => return .ok s s!"ok hit={hit} sum={sum}"
+
+def runProbesN (io : KeyIO K) (s : PState K Int Rng) (i : Nat) (a n st : Int) : String := Id.run do
+  match s.objs[i]? with
+  | none => return "ok invalid"
+  | some o =>
+    let mut mg : Int := 0
+    let mut mf : Int := 0
+    let mut sg : Int := 0
+    let mut sf : Int := 0
+    let mut bad := false
+    for c in [0:n.toNat] do
+      match io.ofInt (a + c * st) with
+      | none => return "bad-op"
+      | some k =>
+        match tabProbes o.hash o.tab k with
+        | (some g, some f) =>
+          if (g : Int) > mg then mg := g
+          if (f : Int) > mf then mf := f
+          sg := sg + g
+          sf := sf + f
+        | _ => bad := true
+    if bad then return "ok maxget=-1 maxfind=-1 sumget=-1 sumfind=-1"
+    return s!"ok maxget={mg} maxfind={mf} sumget={sg} sumfind={sf}"
+
+def runPool (io : KeyIO K) (init : Outcome (PState K Int Rng)) (ops : List String) : List String := Id.run do
   match init with
   | .ok s0 =>
     let mut s := s0
@@ -306,16 +621,40 @@ def runWith {T : Type} (io : KeyIO K) (I : Impl K Int Rng T) (D : Describe K T) 
       if dead then out := out.push "skip"; continue
       match parseOp io (words line) with
       | none => out := out.push "bad-op"
-      | some (.inr (b, what, arg)) =>
-        if what == "dump" then out := out.push s!"ok {D.dump (s.sel b)}"
-        else match arg with
-          | some k => out := out.push s!"ok {D.probes (s.sel b) k}"
-          | none => out := out.push "bad-op"
-      | some (.inl op) =>
-        match step I s op with
-        | .ok (s', o) => s := s'; out := out.push (renderOut io D s' op o)
-        | .panic => dead := true; out := out.push "panic"
-        | .diverge => dead := true; out := out.push "hang"
+      | some (.dump i) =>
+        match s.objs[i]? with
+        | some o => out := out.push s!"ok {(describeTab io o.hash).dump o.tab}"
+        | none => out := out.push "ok invalid"
+      | some (.probes i k) =>
+        match s.objs[i]? with
+        | some o => out := out.push s!"ok {(describeTab io o.hash).probes o.tab k}"
+        | none => out := out.push "ok invalid"
+      | some (.probesn i a n st) => out := out.push (runProbesN io s i a n st)
+      | some (.prim op) =>
+        match Pool.step shuffle s op with
+        | .ok (s', o) => s := s'; out := out.push (renderPrim io s' op o)
+        | .panic => dead := true; s := gone; out := out.push "panic"
+        | .diverge => dead := true; s := gone; out := out.push "hang"
+      | some (.range sid l) =>
+        match runRange io s sid l with
+        | .ok s' line => s := s'; out := out.push line
+        | .fail line => dead := true; s := gone; out := out.push line
+      | some (.nested i j l) =>
+        match runNested io s i j l with
+        | .ok s' line => s := s'; out := out.push line
+        | .fail line => dead := true; s := gone; out := out.push line
+      | some (.putn i a n st v) =>
+        match runPutN io s i a n st v with
+        | .ok s' line => s := s'; out := out.push line
+        | .fail line => dead := true; s := gone; out := out.push line
+      | some (.deln i a n st) =>
+        match runDelN io s i a n st with
+        | .ok s' line => s := s'; out := out.push line
+        | .fail line => dead := true; s := gone; out := out.push line
+      | some (.getn i a n st) =>
+        match runGetN io s i a n st with
+        | .ok s' line => s := s'; out := out.push line
+        | .fail line => dead := true; s := gone; out := out.push line
     return out.toList
   | _ => return ops.map fun _ => "panic"
 
@@ -373,32 +712,85 @@ def runHashFn (fam : String) (ops : List String) : List String :=
         else "bad-op"
       | _ => "bad-op"
 
-def runTables {K : Type} [DecidableEq K] (io : KeyIO K) (hashFor : Nat → K → UInt64) (hdr : List String)
-    (ops : List String) : List String :=
-  let cap := headerNat hdr "cap" 0
-  let opts : Opts := ⟨cap, parseLF (headerGet hdr "minlf"), parseLF (headerGet hdr "maxlf")⟩
+/-- the `HashOpts` and functions of one table, as named in the header -/
+structure TCfg where
+  comp : String
+  hash : String
+  cap : Nat
+  minlf : Option String
+  maxlf : Option String
+  eqv : String
+
+/-- `t<i>=comp,hash,cap,minlf,maxlf,eqval`; an empty field takes the value of the case-wide key -/
+def parseT (base : TCfg) (v : String) : TCfg :=
+  let f := v.splitOn ","
+  let get := fun (i : Nat) => match f[i]? with
+    | some x => if x == "" then none else some x
+    | none => none
+  { comp := (get 0).getD base.comp
+    hash := (get 1).getD base.hash
+    cap := match get 2 with
+      | some x => x.toNat?.getD 0
+      | none => base.cap
+    minlf := match get 3 with
+      | some x => some x
+      | none => base.minlf
+    maxlf := match get 4 with
+      | some x => some x
+      | none => base.maxlf
+    eqv := (get 5).getD base.eqv }
+
+def tableCfgs (hdr : List String) (dfltHash : String) : List TCfg :=
+  let base : TCfg := ⟨(headerGet hdr "comp").getD "", (headerGet hdr "hash").getD dfltHash, headerNat hdr "cap" 0,
+    headerGet hdr "minlf", headerGet hdr "maxlf", (headerGet hdr "eqval").getD "eq"⟩
+  let n := (List.range 8).foldl (fun a i => if (headerGet hdr s!"t{i}").isSome then i + 1 else a) 2
+  (List.range n).map fun i =>
+    match headerGet hdr s!"t{i}" with
+    | some v => parseT base v
+    | none => base
+
+def goTypeOf (comp : String) : Option GoType :=
+  match comp with
+  | "chain" => some .chain
+  | "linear" => some .linear
+  | "quadratic" => some .quadratic
+  | "double" => some .double
+  | _ => none
+
+def minCapOf : GoType → Nat
+  | .chain => AlgoVerif.Generated.symboltable_scMinM
+  | .linear => AlgoVerif.Generated.symboltable_lpMinM
+  | .quadratic => Kind.quad.minM
+  | .double => Kind.dbl.minM
+
+def eqValOf (name : String) : Int → Int → Bool :=
+  match name with
+  | "mod8" => fun a b => a % 8 == b % 8
+  | "le" => fun a b => decide (a ≤ b)
+  | _ => eqI
+
+def runTables {K : Type} [DecidableEq K] (io : KeyIO K) (hashFor : String → Nat → K → UInt64) (dfltHash : String)
+    (hdr : List String) (ops : List String) : List String :=
   let g := Rng.ofSeed (headerInt hdr "shuffle" 0)
-  match headerGet hdr "comp" with
-  | some "quadratic" =>
-    let hash := hashFor (if cap = 0 then Kind.quad.minM else cap)
-    runWith io (OA.impl shuffle hash eqI) (oaDescribe io hash) (initState (OA.new .quad opts) g) ops
-  | some "double" =>
-    let hash := hashFor (if cap = 0 then Kind.dbl.minM else cap)
-    runWith io (OA.impl shuffle hash eqI) (oaDescribe io hash) (initState (OA.new .dbl opts) g) ops
-  | some "linear" =>
-    let hash := hashFor (if cap = 0 then AlgoVerif.Generated.symboltable_lpMinM else cap)
-    runWith io (Lin.impl shuffle hash eqI) (linDescribe io hash) (initState (Lin.new opts) g) ops
-  | some "chain" =>
-    let hash := hashFor (if cap = 0 then AlgoVerif.Generated.symboltable_scMinM else cap)
-    runWith io (Chain.impl shuffle hash eqI) (chainDescribe io hash) (initState (Chain.new opts) g) ops
-  | _ => ops.map fun _ => "bad-case"
+  let cfgs := (tableCfgs hdr dfltHash).map fun c =>
+    (goTypeOf c.comp).map fun ty =>
+      ({ ty := ty, hash := hashFor c.hash (if c.cap = 0 then minCapOf ty else c.cap), eqVal := eqValOf c.eqv,
+         opts := ⟨c.cap, parseLF c.minlf, parseLF c.maxlf⟩ } : Cfg K Int)
+  if cfgs.any Option.isNone then ops.map fun _ => "bad-case"
+  else
+    let init : Outcome (PState K Int Rng) :=
+      match Pool.new (cfgs.filterMap id) with
+      | .ok objs => .ok ⟨objs, g, {}⟩
+      | .panic => .panic
+      | .diverge => .diverge
+    runPool io init ops
 
 def runCase (hdr : List String) (ops : List String) : List String :=
   if headerGet hdr "comp" == some "hashfn" then
     runHashFn ((headerGet hdr "fam").getD "") ops
   else if headerGet hdr "keys" == some "str" then
-    runTables strKeys (fun _ => hashOfBytes ((headerGet hdr "hash").getD "fnvstr")) hdr ops
+    runTables strKeys (fun name _ => hashOfBytes name) "fnvstr" hdr ops
   else
-    runTables intKeys (fun cap0 => hashOf ((headerGet hdr "hash").getD "fnv") cap0) hdr ops
+    runTables intKeys hashOf "fnv" hdr ops
 
 end AlgoVerif.C02.Driver
